@@ -797,3 +797,87 @@ def run_parkrestore(prog, ctx=None):
     if not pairs:
         raise Broken("PARKRESTORE: no park idiom (X->S = *X->R) found in the files given")
     return res
+
+
+def run_derivedfield(prog, ctx=None):
+    """DERIVEDFIELD: a member that caches something computed from another member of the same object (`m->str = data +
+    m->s._off`) is brought up to date wherever that other member is given a new value: a function that stores to the source
+    member B of an object also stores to the cached member A of it, or hands the object to a function of the file that does
+    (the one that derives it).  A clone or copy that moves the position but keeps the cached pointer delivers the element of
+    the old position first."""
+    res = Result("DERIVEDFIELD")
+    files = set(ctx.get("files", [])) if ctx else None
+    fs = funcs_of(prog, files)
+    byfile = {}
+    for f in fs:
+        byfile.setdefault(f.file, []).append(f)
+
+    def mpath(e):
+        p = []
+        cur = strip(e, lvalue_to_rvalue=False)
+        while isinstance(cur, dict) and cur.get("k") == "mem":
+            p.append(cur["f"])
+            cur = strip(cur["b"], all_casts=True)
+        return ".".join(reversed(p)), cur
+
+    for file, funcs in sorted(byfile.items()):
+        # derivations: rec-level pairs (A, B) with the deriving functions
+        derive = {}
+        stores = {}          # function key -> {path: [node]} per root variable id
+        for f in funcs:
+            for b, i, n in f.walk_all():
+                if not (n.get("k") == "bin" and n.get("op") == "="):
+                    continue
+                a, root = mpath(n["a"])
+                if not a or not isinstance(root, dict) or root.get("k") != "ref" or "id" not in root["d"]:
+                    continue
+                rid = root["d"]["id"]
+                stores.setdefault(f.key(), {}).setdefault((rid, a), []).append(n)
+                if f.T(strip(n["a"], lvalue_to_rvalue=False).get("t")).get("k") != "ptr" or cval(n["b"]) is not None:
+                    continue
+                for m in walk(n["b"]):
+                    if m.get("k") == "mem":
+                        bpath, r2 = mpath(m)
+                        if bpath and bpath != a and isinstance(r2, dict) and r2.get("k") == "ref" and r2["d"].get("id") == rid \
+                                and f.T(m.get("t")).get("k") == "int":
+                            derive.setdefault((a, bpath), set()).add(f.key())
+        if not derive:
+            continue
+        writers = {}         # cached member -> functions of the file that store it
+        for f in funcs:
+            for (rid, a), ns in stores.get(f.key(), {}).items():
+                writers.setdefault(a, set()).add(f.key())
+        # cached means: some function of the file reads the member without computing it itself
+        readers = {}
+        for f in funcs:
+            lhs = set()
+            for b, i, n in f.walk_all():
+                if n.get("k") == "bin" and n.get("op") == "=":
+                    lhs.add(id(strip(n["a"], lvalue_to_rvalue=False)))
+            for b, i, n in f.walk_all():
+                if n.get("k") == "mem" and id(n) not in lhs:
+                    pth, r2 = mpath(n)
+                    if pth:
+                        readers.setdefault(pth, set()).add(f.key())
+        for (a, bpath), dfs in sorted(derive.items()):
+            if not (readers.get(a, set()) - writers.get(a, set())):
+                continue
+            for f in funcs:
+                st = stores.get(f.key(), {})
+                roots = {rid for (rid, p) in st if p == bpath}
+                for rid in sorted(roots):
+                    if (rid, a) in st:
+                        ok = True
+                    else:
+                        # the object is handed to a function of this file that stores the cached member
+                        ok = False
+                        for b2, i2, e2 in f.elements():
+                            if e2.get("k") == "call":
+                                for g in prog.resolve_call(f, e2):
+                                    if g.key() in writers.get(a, ()) and any(root_of(x) == rid for x in e2.get("args", [])):
+                                        ok = True
+                    n0 = st[(rid, bpath)][0]
+                    res.ob("%s:%s follows %s" % (f.qn, a, bpath), ok, f, n0.get("l", f.line) or f.line,
+                           "" if ok else "`%s` gives %s a new value, but %s, which %s derives from it, is neither stored here nor by a callee that is handed the object: the cached value belongs to the old %s" % (
+                               norm(show(n0, f)), bpath, a, ", ".join(sorted(k[2] if isinstance(k, tuple) and len(k) > 2 else str(k) for k in dfs))[:60], bpath))
+    return res
